@@ -590,9 +590,13 @@ fn send_cmd_ctx_to_remote_directly<C: ConnFactory<Pkt = RespPacket>>(
     address: String,
     max_redirections: Option<NonZeroUsize>,
 ) {
+    // Always wrap the command with UMFORWARD, even without a redirection limit,
+    // so that the peer proxy can tell a forwarded (already compressed) command
+    // from a command sent by a client.
     let times = cmd_ctx
         .get_redirection_times()
-        .or_else(|| max_redirections.map(|n| n.get() - 1));
+        .or_else(|| max_redirections.map(|n| n.get() - 1))
+        .or(Some(usize::MAX));
     if let Some(times) = times {
         let times = match times.checked_sub(1) {
             None => {
